@@ -20,6 +20,7 @@ from .. import dirrun, encode, project, seams
 ID = 'C09'
 LEVEL = 'model_checking'
 TRACE = 'trace/Trace_Dir'
+PROCESS_EVERY = 5         # every fifth case runs the command line as a real process (seams.PROC_VARIANTS)
 RULE = ('case = one (directory, junk set, mode): the mode is run on the directory with and without the junk files it '
         'cannot decode; non-trivial = the junk set holds at least one regular file and the directory at least one PEL '
         'the mode shows; distinct = by (mode, junk kinds and positions, directory)')
@@ -30,7 +31,8 @@ ASSUMPTIONS = [
 ]
 MODES = {'list': ['-l'], 'all': ['-a'], 'count': ['-n'], 'plid': ['--plid', '0x50000001'], 'src': ['--src', 'BD8D'],
          'json': ['-j'], 'hexlist': ['-l', '-x'], 'hexall': ['-a', '-x'], 'listE': ['-l', '-E'], 'allrev': ['-a', '-r'],
-         'srcex': ['--src-exclude', '<exclude>'], 'bmcid': ['--bmc-id', '<bmc>']}
+         'srcex': ['--src-exclude', '<exclude>'], 'bmcid': ['--bmc-id', '<bmc>'],
+         'jsonhere': ['-j']}        # without -o: the results are written next to the inputs
 
 
 def model_checks(tier):
@@ -56,11 +58,18 @@ def _run(d, out_dir, mode):
         shutil.rmtree(out_dir, ignore_errors=True)
         os.makedirs(out_dir)
         argv += ['-o', out_dir]
+    before = {}
+    if mode == 'jsonhere':
+        for fn in os.listdir(d):
+            fp = os.path.join(d, fn)
+            if os.path.isfile(fp):
+                with open(fp, 'rb') as f:
+                    before[fn] = f.read()
     res = seams.run_cli(argv)
     out = res['out'] or ''
     if mode in ('hexlist', 'hexall'):
         wf = dirrun.hex_blocks(out) is not None
-    elif mode == 'json':
+    elif mode in ('json', 'jsonhere'):
         wf = out.strip() == ''
     elif mode == 'bmcid':
         wf = dirrun.json_ok(out) or out.strip() == 'PEL not found'
@@ -71,6 +80,15 @@ def _run(d, out_dir, mode):
         for fn in sorted(os.listdir(out_dir)):
             with open(os.path.join(out_dir, fn), 'rb') as f:
                 files[fn] = dirrun.sha(f.read().decode('utf-8', 'replace'))
+    if mode == 'jsonhere':
+        # the results: every file the run created or rewrote
+        for fn in sorted(os.listdir(d)):
+            fp = os.path.join(d, fn)
+            if os.path.isfile(fp):
+                with open(fp, 'rb') as f:
+                    now = f.read()
+                if before.get(fn) != now:
+                    files[fn] = dirrun.sha(now.decode('utf-8', 'replace'))
     return dict(exit=res['exit'] if not res['uncaught'] else 99, out=dirrun.sha(out), wellformed=wf,
                 stderr_empty=(res['err'] or '').strip() == '', files=files, text=out)
 
@@ -84,7 +102,7 @@ def _shows_something(r, mode):
             return json.loads(t)['Number of PELs found'] != 0
         except Exception:
             return True
-    if mode == 'json':
+    if mode in ('json', 'jsonhere'):
         return bool(r['files'])
     if mode in ('hexlist', 'hexall'):
         return t != ''
@@ -125,6 +143,14 @@ def run_case(case):
             dirrun.callout_junk(rng, kind) if kind in ('pceSizeMore', 'calloutFlip') else dirrun.make_junk(rng, kind, src)
         nm = rng.choice(['0_first', '2023_middle', 'zz_last', 'M_mid', '~tail']) + '_%s_%d' % (kind, j)
         junk.append((nm, data, kind))
+    if rng.random() < .5:
+        # what an interrupted earlier `-j` leaves next to the inputs: a file under the very name of a log's result
+        # (empty, cut off, or not text at all), written after the log
+        k = rng.randrange(n)
+        eid_k = encode.b2i(pels[k]['ph']['eid'])
+        junk.append(('%s.%08X.json' % (files[k][0], eid_k),
+                     rng.choice([b'', b'{\n    "Private Header": {\n        "Section Ver', b'\xff\xfe\x00junk', b'[]\n']),
+                     'staleResult'))
     nested = []
     if rng.random() < .6:
         sub = rng.choice(['archive', '0dir', 'zdir'])
@@ -143,7 +169,7 @@ def run_case(case):
             dec = _shows_something(a, mode)
             if not dec:
                 # a directory holding only this junk file: same output as the empty directory, exit 0
-                recs.append(dict(family='C09', shape_ok=True, mode='json' if mode == 'json' else mode,
+                recs.append(dict(family='C09', shape_ok=True, mode='json' if mode in ('json', 'jsonhere') else mode,
                                  junk=[dict(kind=kind, decodable_alone=False, used=True)], njunk=1, nested=False,
                                  base=dict(exit=e0['exit'], out=e0['out'], wellformed=e0['wellformed'], files=[]),
                                  **{'with': dict(exit=a['exit'], out=a['out'], wellformed=a['wellformed'], files=[],
@@ -157,7 +183,7 @@ def run_case(case):
         names = set(nm for nm, _ in files)
         wf = {k: v for k, v in w['files'].items() if any(k.startswith(nm + '.') for nm in names)}
         extra = sorted(k for k in w['files'] if k not in wf)
-        recs.append(dict(family='C09', shape_ok=True, mode='json' if mode == 'json' else mode, junk=jrec,
+        recs.append(dict(family='C09', shape_ok=True, mode='json' if mode in ('json', 'jsonhere') else mode, junk=jrec,
                          njunk=len(use), nested=bool(nested),
                          base=dict(exit=b['exit'], out=b['out'], wellformed=b['wellformed'], files=sorted(b['files'].items())),
                          **{'with': dict(exit=w['exit'], out=w['out'], wellformed=w['wellformed'],
